@@ -84,7 +84,7 @@ static void setup_bfs(Runner &r, const Tier &t) {
             { World w; w.ts = ts; w.mf.ts = &w.ts; w.mf.no_release_fn = rt.no_release; std::vector<uint32_t>().swap(w.mf.log_get);
               w.face = w.mf.make(rt.opts); w.gets_at_load = w.mf.n_get;
               if (!w.face) { fail(h, "seed font does not load"); return false; }
-              for (int o : h) { apply(w, o); ++trans;
+              for (int o : h) { { CallGuard cg(30); apply(w, o); } ++trans;
                   if (w.mf.bad_release) { fail(h, std::string("release_table called with a pointer that is not outstanding, after ") + opname(o)); ok = false; break; }
                   if ((rt.opts & 6) == 6 && w.face && w.mf.n_get != w.gets_at_load) { fail(h, std::string("get_table called after gr_make_face with preloadAll, during ") + opname(o)); ok = false; break; } }
               if (ok) { { std::string k = w.key(); snprintf(keybuf, sizeof keybuf, "%s", k.c_str()); } nen = 0; for (int o = 0; o < NOPS; ++o) if (enabled(w, o)) enbuf[nen++] = o; }
